@@ -135,8 +135,11 @@ func (pl *pool) run(job explore.Job) explore.Result {
 		if res.Crash != "job timeout" {
 			p.kill()
 		} else {
+			// No verdict: the execution did not finish in 3 real minutes (the
+			// bubble's virtual clock stopped advancing). Reported, never silent.
 			res.Crash = ""
 			res.Diverged = true
+			res.Viol = append(res.Viol, explore.Violation{Key: "exec-hang", What: "execution did not finish within 3 real minutes (virtual time not advancing)"})
 		}
 		p = nil
 	}
@@ -348,6 +351,10 @@ func TestC40(t *testing.T) {
 
 	// ---- phase 2: k=1 on the representatives
 	p2 := map[string]any{}
+	k := 1
+	if ev.Thorough() {
+		k = 2
+	}
 	p2start := time.Now()
 	var p2execs int64
 	completed := 0
@@ -361,7 +368,7 @@ func TestC40(t *testing.T) {
 		c := allCfgs[n]
 		obs := map[string]struct{}{}
 		st := explore.Explore(explore.Config{
-			Scenario: name, Budget: 1, Workers: ev.Workers(), Deadline: time.Now().Add(slice),
+			Scenario: name, Budget: k, Workers: ev.Workers(), Deadline: time.Now().Add(slice),
 			Run: pl.run,
 			OnResult: func(job explore.Job, res explore.Result) {
 				report(name, job, res)
@@ -382,7 +389,7 @@ func TestC40(t *testing.T) {
 		p2[name] = map[string]any{"configuration": c.String(), "bound_completed": st.LevelCompleted, "executions": st.Execs, "decision_points": st.Points,
 			"outcomes": ol, "diverged": st.Diverged, "capped": st.Capped, "cut_by_time": st.Cut}
 		if st.Cut {
-			r.NotExhaustive(fmt.Sprintf("%s: k=1 level cut by time", name))
+			r.NotExhaustive(fmt.Sprintf("%s: level %d cut by time", name, st.LevelCompleted+1))
 		} else {
 			completed++
 		}
@@ -390,16 +397,17 @@ func TestC40(t *testing.T) {
 			r.NotExhaustive(fmt.Sprintf("%s: %d replayed prefixes diverged", name, st.Diverged))
 		}
 		if os.Getenv("VERIF_VERBOSE") != "" {
-			fmt.Printf("  %-10s k=1 completed=%d execs=%d points=%d outcomes=%v diverged=%d capped=%d cut=%v  %s\n", name, st.LevelCompleted, st.Execs, st.Points, ol, st.Diverged, st.Capped, st.Cut, c)
+			fmt.Printf("  %-10s k<=%d completed=%d execs=%d points=%d outcomes=%v diverged=%d capped=%d cut=%v  %s\n", name, k, st.LevelCompleted, st.Execs, st.Points, ol, st.Diverged, st.Capped, st.Cut, c)
 		}
 	}
 	if completed < len(reps) {
-		r.NotExhaustive(fmt.Sprintf("phase 2: k=1 completed on %d of %d representative configurations", completed, len(reps)))
+		r.NotExhaustive(fmt.Sprintf("phase 2: k=%d completed on %d of %d representative configurations", k, completed, len(reps)))
 	}
-	fmt.Printf("  phase 2 (k=1): %d of %d representative configurations completed, %d executions in %.1fs\n", completed, len(reps), p2execs, time.Since(p2start).Seconds())
-	r.Set("phase2_k1", p2)
+	fmt.Printf("  phase 2 (k=%d): %d of %d representative configurations completed, %d executions in %.1fs\n", k, completed, len(reps), p2execs, time.Since(p2start).Seconds())
+	r.Set("phase2_k", k)
+	r.Set("phase2", p2)
 	r.Set("phase2_completed", completed)
-	r.Set("bound_completed", map[string]any{"k0_configurations": done, "k1_representatives": completed})
+	r.Set("bound_completed", map[string]any{"k0_configurations": done, fmt.Sprintf("k%d_representatives", k): completed})
 	pl.close()
 	os.Exit(r.Write())
 }
